@@ -80,6 +80,9 @@ func checkC06(c *Ctx, r *Report) {
 	checkCodabarIndexPair(c, r)
 	// the frozen E-DROP rows of the Data Matrix decoder rest on its version table: decide that here as well
 	checkDMTables(c, r)
+	// the Code 128 row decoder removes the check symbol's characters from its text: folded over scripted symbol values
+	checkCode128ReaderTotal(c, r)
+	checkRSS14Text(c, r)
 }
 
 func runEXOR(c *Ctx, r *Report, nf *nilFlow, roots []*ssa.Function, min int) {
@@ -594,4 +597,108 @@ func checkCallbackNilMin(c *Ctx, r *Report, reach map[*ssa.Function]bool, min in
 			}
 		}
 	}
+}
+
+// S-RSSTEXT: the text the RSS-14 reader builds from a pair of data values
+func checkRSS14Text(c *Ctx, r *Report) {
+	r.Rule("S-RSSTEXT", "oned/rss.constructResult, folded from source for pairs whose values span the range the data characters can produce (0 .. 4537076 each, among them the first pair that gives a number of 14 digits): it builds its text without indexing or slicing outside its buffer, and the text is the number left-padded with zeros to 13 digits followed by the mod-10 check digit of those 13", 1)
+	fd, p := c.funcDeclOf("oned/rss", "constructResult")
+	key := "oned/rss.constructResult/text"
+	if fd == nil {
+		r.AnchorLost("S-RSSTEXT", key, "function not found")
+		return
+	}
+	r.Analysed(key)
+	type stop struct{ text string }
+	bad := ""
+	for _, lv := range []int64{0, 1, 22, 220406, 2204063, 2204064, 3218016, 4537076} {
+		for _, rv := range []int64{0, 7, 2923880, 4537076} {
+			cur := lv
+			pair := func(v int64) *Val {
+				return &Val{K: VStruct, Ptr: true, Fields: map[string]*Val{"value": vint(v)}}
+			}
+			lp, rp := pair(lv), pair(rv)
+			h := &rpf{unroll: 1000, effectCalls: true}
+			h.callHook = func(rr *rpf, call *ast.CallExpr, callee types.Object) (*Val, bool) {
+				if fn, ok := callee.(*types.Func); ok {
+					switch fn.Name() {
+					case "GetValue":
+						if sel, isS := call.Fun.(*ast.SelectorExpr); isS {
+							if b := rr.expr(sel.X); b == lp {
+								return vint(lv), true
+							} else if b == rp {
+								return vint(rv), true
+							}
+						}
+					case "GetFinderPattern":
+						return &Val{K: VStruct, Ptr: true, Fields: map[string]*Val{}}, true
+					case "GetResultPoints":
+						return &Val{K: VList, L: []*Val{{K: VNil}, {K: VNil}}}, true
+					case "NewResult":
+						conv, isConv := call.Args[0].(*ast.CallExpr)
+						if !isConv || len(conv.Args) != 1 {
+							rpfFail("the result text is not string(<buffer>)")
+						}
+						bs, ok := listInts(rr.expr(conv.Args[0]))
+						if !ok {
+							rpfFail("the text buffer is not a list of constants")
+						}
+						b := make([]byte, len(bs))
+						for i, x := range bs {
+							b[i] = byte(x)
+						}
+						panic(stop{string(b)})
+					}
+				}
+				return nil, false
+			}
+			_ = cur
+			got, failed := "", ""
+			func() {
+				defer func() {
+					if x := recover(); x != nil {
+						if s, ok := x.(stop); ok {
+							got = s.text
+							return
+						}
+						panic(x)
+					}
+				}()
+				if _, err := c.rpfCall(fd, p, []*Val{lp, rp}, h); err != nil {
+					failed = err.Error()
+				} else {
+					failed = "no Result is constructed"
+				}
+			}()
+			val := 4537077*lv + rv
+			what := fmt.Sprintf("left value %d, right value %d (number %d)", lv, rv, val)
+			if failed != "" {
+				if strings.Contains(failed, "out of range") {
+					bad = what + ": " + failed + " - a run-time panic"
+				} else {
+					bad = "?" + what + ": " + failed
+				}
+				break
+			}
+			num := fmt.Sprintf("%013d", val)
+			sum := 0
+			for i := 0; i < 13; i++ {
+				d := int(num[i] - '0')
+				if i%2 == 0 {
+					sum += 3 * d
+				} else {
+					sum += d
+				}
+			}
+			want := num + fmt.Sprint((10-sum%10)%10)
+			if got != want {
+				bad = fmt.Sprintf("%s: the text is %q, expected %q", what, got, want)
+				break
+			}
+		}
+		if bad != "" {
+			break
+		}
+	}
+	reportFold(r, c, "S-RSSTEXT", key, fd.Pos(), bad)
 }
